@@ -302,13 +302,16 @@ def gen_probe_case(pool: Pool, seed: int, shard: int, j: int, thorough: bool, ns
         if st.chance(1, 3):
             _bias_memory(st, probe)
             plabels.append("mem:boundary-biased")
-        n = st.choice((4, 6, 10, 16, 24, 40))
+        n = st.choice((4, 6, 10, 16, 24, 40, 80, 150) if thorough else (4, 6, 10, 16, 24, 40))
         prog = build_program(st, pool, n, imax=6)
         want = probe["regs"]["PC"] if st.chance(1, 2) else None
         base, overlapped = place(prog, st, want)
         overlap_any = overlap_any or overlapped
-        hist = program_case(prog, st, base, 90)
-        rounds.append({"hist": hist, "junk": _junk(st), "probe": probe})
+        hist = program_case(prog, st, base, 220 if thorough else 90)
+        junk = _junk(st)
+        if mix32(seed, shard, j, r, 0x7ACE) & 1:
+            junk["py_tracer"] = True
+        rounds.append({"hist": hist, "junk": junk, "probe": probe})
         shapes += prog.shape
         if r == nr - 1:
             labels += [x for x in plabels if x.startswith(("ptr:", "mem:"))]
